@@ -51,7 +51,7 @@ func showNode(n *Node) string {
 			fs = append(fs, k.Key+tg+": "+showNode(k.Node))
 		}
 		inner = "{" + strings.Join(fs, ", ") + "}"
-	case "slice", "ptr":
+	case "slice", "ptr", "pre":
 		inner = "(" + showNode(n.Elem()) + ")"
 	}
 	s := n.K + inner
